@@ -19,6 +19,7 @@ written to one file by the real cfdm and read back.
 """
 import itertools
 import json
+import random
 import os
 
 import lib
@@ -531,7 +532,61 @@ def g_cfield(sk):
     return f"(mkCF {g_field(sk)} (Some ({spec})))"
 
 
-LISTS = {0: [0, 2], 1: [1, 3], 2: [1, 2, 3]}
+LISTS = {0: [0, 2], 1: [1, 3], 2: [1, 2, 3], 3: [0, 1, 3]}
+
+
+def g_cfield2(sk):
+    c = sk.get("cmp")
+    cmp = "None" if c is None else f"(Some (CGath {gz(c['t'])} {gnat(c['p'])} {gnat(c['n'])}))"
+    items = "; ".join(f"mkGI {gz(it['lt'])} {gnat(it['p'])} {gnat(it['n'])}" for it in sk.get("gcons", []))
+    return f"(mkCF2 (mkCF {g_field(sk)} {cmp}) [{items}])"
+
+
+def gathered_constructs_family(rng, n):
+    """2-3 fields on (mostly) the same dimensions, all orderings: fields whose data are gathered, fields with
+    uncompressed data that carry one or two auxiliary coordinates gathered over the same axes, fields with
+    both, plain fields; list variables equal, or different with the same length ([0,2] / [1,3], [1,2,3] /
+    [0,1,3]), or of other length.  A construct must be written on a list variable holding its own list: the
+    per-field mapping compressed dimensions -> sample dimension must not survive from one field to the next."""
+    out = []
+    fid = 80000
+    for j in range(n):
+        k = rng.choice([2, 2, 3])
+        shape = rng.choice([(2, 2), (2, 3), (3, 2)])
+        lead = rng.choice([None, None, 2, 3])
+        v0 = rng.choice([0, 1])
+        pair = rng.choice([(0, 1), (2, 3)])
+        fields = []
+        kinds = [rng.choice(["gdata", "gcons", "gcons", "both", "plain"]) for _ in range(k)]
+        if j % 2 == 0:
+            kinds[0], kinds[1] = "gdata", "gcons"       # the order-dependent situation, then permuted
+        for i, kind in enumerate(kinds):
+            v = v0 if rng.random() < 0.8 else rng.choice([0, 1, 2])
+            grid = [{"t": tok(10, v), "b": None}, {"t": tok(11, v), "b": None}]
+            if lead is None:
+                sizes, dim, p = list(shape), grid, 0
+            else:
+                sizes, dim, p = [lead] + list(shape), [{"t": tok(6, 0), "b": None}] + grid, 1
+            lt = pair[i % 2] if rng.random() < 0.8 else rng.choice([0, 1, 2, 3])
+            sk = F(fid, sizes, dim=dim)
+            if kind in ("gdata", "both"):
+                sk["cmp"] = {"kind": "gath", "t": lt, "p": p, "n": 2}
+            if kind in ("gcons", "both"):
+                sk["gcons"] = [{"lt": lt, "p": p, "n": 2, "t": tok(23, rng.choice([0, 2]))}]
+                if rng.random() < 0.3:
+                    sk["gcons"].append({"lt": lt, "p": p, "n": 2, "t": tok(24, 0)})
+            if rng.random() < 0.3 and lead is not None:
+                sk["aux"] = [{"ax": [0], "t": tok(20, rng.choice([0, 1])), "b": None}]
+            sk["gfam"] = True
+            fields.append(sk)
+            fid += 1
+        for f in fields:
+            normalise(rng, f)
+        out.append({"fields": fields, "orders": [list(q) for q in itertools.permutations(range(k))],
+                    "fam": "gathered-constructs"})
+    return out
+
+
 COUNTS = {0: [2, 1, 3], 1: [1, 3, 2], 2: [2, 1], 3: [1, 2]}
 
 
@@ -592,11 +647,37 @@ def compressed_family(rng, n):
     return out
 
 
+def external_measure_cases(rng, n):
+    """a field whose cell measure is external (named in external_variables, no variable in the file) with a
+    field whose internal cell measure, or other variable, asks for the same netCDF name; all orders; a
+    third field with the same external measure now and then.  Oracle only."""
+    out = []
+    for j in range(n):
+        d = {"t": tok(6, rng.choice([0, 1])), "b": None}
+        nc = rng.randrange(6)
+        size = rng.choice([2, 3])
+        a = F(85000 + 10 * j, [size], dim=[dict(d)], meas=[{"ax": [0], "t": tok(25, 0), "nc": nc}])
+        a["extm"] = True
+        if rng.random() < 0.6:
+            b = F(85001 + 10 * j, [size], dim=[dict(d)], meas=[{"ax": [0], "t": tok(26, rng.choice([0, 1])), "nc": nc}])
+        else:
+            b = F(85001 + 10 * j, [size], dim=[dict(d)], aux=[{"ax": [0], "t": tok(21, 0), "b": None, "nc": nc}])
+        fields = [a, b]
+        if rng.random() < 0.4:
+            c = F(85002 + 10 * j, [size], dim=[dict(d)], meas=[{"ax": [0], "t": tok(25, 0), "nc": nc}])
+            c["extm"] = True
+            fields.append(c)
+        out.append({"fields": fields, "orders": [list(q) for q in itertools.permutations(range(len(fields)))],
+                    "fam": "external-measure-name"})
+    return out
+
+
 def geometry_cases():
     """example field 6 (geometry: node count, part node count, interior ring) against variants with the same
-    counts and other node coordinates / other instance-level coordinates; oracle only"""
+    counts and other node coordinates / other instance-level coordinates / other interior rings (equal
+    nodes, /repo commit e7327dc); oracle only"""
     out = []
-    for j, var in enumerate([[], ["nodes"], ["inst"], ["nodes", "inst"]]):
+    for j, var in enumerate([[], ["nodes"], ["inst"], ["nodes", "inst"], ["ring"], ["ring", "inst"]]):
         out.append({"fields": [{"id": 9100 + 2 * j, "ex": 6}, {"id": 9101 + 2 * j, "ex": 6, "exvar": var or ["same"]}],
                     "orders": [[0, 1], [1, 0]], "fam": "geometry-variants"})
     return out
@@ -679,6 +760,8 @@ def run(chk, model_ok):
     thorough = chk.tier == "thorough"
     ncases = 3600 if thorough else 140
     cases = corpus() + compressed_corpus() + example_cases(rng, thorough) + geometry_cases() + \
+        gathered_constructs_family(rng, 400 if thorough else 24) + \
+        external_measure_cases(random.Random(rng.random()), 60 if thorough else 6) + \
         bounds_family(rng, 400 if thorough else 24) + compressed_family(rng, 500 if thorough else 36)
     fid = 100
     for n in range(ncases):
@@ -708,6 +791,7 @@ def run(chk, model_ok):
              "write_errors": 0, "with_domain": 0, "families": {}, "sizes": {}, "features": {}}
     lits, lit_src = [], []
     clits, clit_src = [], []
+    glits, glit_src = [], []
     conflict_queries = []      # (case index, failure records) classified by the model afterwards
     pending = []
     for ci, (c, r) in enumerate(zip(cases, rows)):
@@ -716,8 +800,8 @@ def run(chk, model_ok):
         sks = c["fields"]
         stats["families"][c["fam"]] = stats["families"].get(c["fam"], 0) + 1
         stats["sizes"][len(sks)] = stats["sizes"].get(len(sks), 0) + 1
-        isex = any(sk.get("ex") is not None for sk in sks)
-        iscmp = any(sk.get("cmp") is not None for sk in sks)
+        isex = any(sk.get("ex") is not None or sk.get("extm") for sk in sks)
+        iscmp = any(sk.get("cmp") is not None or sk.get("gfam") for sk in sks)
         for sk in sks:
             if sk.get("ex") is not None:
                 stats["features"]["example_field"] = stats["features"].get("example_field", 0) + 1
@@ -727,6 +811,8 @@ def run(chk, model_ok):
                     stats["features"][k] = stats["features"].get(k, 0) + 1
             if sk.get("ft"):
                 stats["features"]["ft"] = stats["features"].get("ft", 0) + 1
+            if sk.get("gcons"):
+                stats["features"]["gathered_construct"] = stats["features"].get("gathered_construct", 0) + 1
             if sk.get("cmp") is not None:
                 kk = "compressed_" + sk["cmp"]["kind"]
                 stats["features"][kk] = stats["features"].get(kk, 0) + 1
@@ -789,8 +875,38 @@ def run(chk, model_ok):
                                               f"netCDF variable {name} holds unequal constructs {d1} (field {sks[k1]['id']}) "
                                               f"and {d2} (field {sks[k2]['id']})"))
                                 break
+            # gathered items (data and constructs): each must be written on a list variable that holds its own
+            # list values and names its own dimensions
+            if "gfile" in o:
+                ok_lit = model_ok
+                for k, gv in zip(order, o["gfile"]):
+                    sk = sks[k]
+                    if "err" in gv:
+                        ok_lit = False
+                        continue
+                    specs = ([(sk["cmp"]["t"], "data")] if sk.get("cmp") else []) + \
+                            [(it["lt"], f"auxiliary coordinate t={it['t']}") for it in sk.get("gcons", [])]
+                    for (lt, what), iv in zip(specs, gv["items"]):
+                        if iv.get("list") is None:
+                            fails.append(("gathered-item-without-list-variable",
+                                          f"field id {sk['id']}: its {what} is not written on a list variable "
+                                          f"(variable {iv.get('var')} on {iv.get('dims')})"))
+                            ok_lit = False
+                        elif iv["values"] != LISTS[lt] or (all(x is not None for x in iv["own"])
+                                                           and iv["meaning"] != iv["own"]):
+                            fails.append(("compression-variable-refers-to-other-dimensions",
+                                          f"field id {sk['id']}: its {what} is written on list variable {iv['list']} = "
+                                          f"{iv['values']} compress {iv['meaning']}; its own list is {LISTS[lt]} on {iv['own']}"))
+                        if any(x is None for x in iv.get("own", [None])):
+                            ok_lit = False
+                if ok_lit:
+                    odims = number([[d for iv in gv["items"] for d in iv["own"]] for gv in o["gfile"]])
+                    ovars = number([[iv["list"] for iv in gv["items"]] for gv in o["gfile"]])
+                    glits.append(f"([{'; '.join(g_cfield2(sks[k]) for k in order)}], {g_natlists(odims)}, "
+                                 f"{g_natlists(ovars)})")
+                    glit_src.append((ci, o))
             # compression variables: the variable a field uses must refer to the field's own dimensions
-            if iscmp and "cfile" in o:
+            if "cfile" in o:
                 for k, cv in zip(order, o["cfile"]):
                     if "err" in cv or cv.get("meaning") is None or any(x is None for x in cv.get("own", [None])):
                         continue
@@ -826,7 +942,8 @@ def run(chk, model_ok):
     sig_of = {}
     if pending:
         qs = sorted({ci for ci, _, _ in pending
-                     if all(sk.get("ex") is None and sk.get("cmp") is None for sk in cases[ci]["fields"])})
+                     if all(sk.get("ex") is None and sk.get("cmp") is None and not sk.get("extm")
+                            and not sk.get("gfam") for sk in cases[ci]["fields"])})
         flags = {}
         if model_ok:
             # (a domain is written through the same code: it takes part in the conflict like a field)
@@ -835,14 +952,18 @@ def run(chk, model_ok):
                                           chunk=100, defs=PERMS_DEF))
             flags = {ci: (i in bad) for i, ci in enumerate(qs)}
         for ci, o, fails in pending:
-            if any(sk.get("ex") is not None or sk.get("cmp") is not None for sk in cases[ci]["fields"]):
+            if any(sk.get("ex") is not None or sk.get("cmp") is not None or sk.get("extm") or sk.get("gfam")
+                   for sk in cases[ci]["fields"]):
                 conflict = False
             else:
                 conflict = flags.get(ci, may_conflict_ft(cases[ci]["fields"]))
             for sig, what in fails:
-                if conflict and sig in ("not-exactly-one-equal", "differs-from-single-file", "shared-unequal",
-                                        "extra-or-missing-constructs", "fingerprint-differs"):
+                generic = ("not-exactly-one-equal", "differs-from-single-file", "shared-unequal",
+                           "extra-or-missing-constructs", "fingerprint-differs")
+                if conflict and sig in generic:
                     sig = "formula-terms-on-shared-coordinate"
+                elif sig in generic and any(sk.get("extm") for sk in cases[ci]["fields"]):
+                    sig = "external-variable-name-taken-by-internal-variable"
                 chk.fail("property", sig, what, {"input": {"fields": [clean(f) for f in cases[ci]["fields"]],
                                                            "order": o["order"]},
                                                  "expected": "one equal construct per original, identical to its single-file round trip",
@@ -882,6 +1003,17 @@ def run(chk, model_ok):
                      {"correspondence": "C09.Run.check_ccase",
                       "input": {"fields": [clean(f) for f in cases[ci]["fields"]], "order": o["order"]},
                       "observed": {"cfile": o.get("cfile")}})
+        gbad = set(lib.coq_bad_indices("C09", REQ, "check_gcase", glits, chunk=150)) if glits else set()
+        n_ccorr += len(glits)
+        for j in sorted(gbad):
+            ci, o = glit_src[j]
+            if (ci, tuple(o["order"])) in explained:
+                continue
+            chk.fail("correspondence", "model-vs-impl-compression",
+                     "model and implementation disagree on the list variables of gathered data / constructs",
+                     {"correspondence": "C09.Run.check_gcase",
+                      "input": {"fields": [clean(f) for f in cases[ci]["fields"]], "order": o["order"]},
+                      "observed": {"gfile": o.get("gfile")}})
         # the composition theorem on the same cases: how many are under its hypotheses, and (a direct
         # reading of the theorem against the implementation) the read-back equals [map expected fs]
         sel = [lits[i] for i in idx]
